@@ -121,6 +121,71 @@ fn tag_s(k: u32, c: u32) -> u64 { 3_000_000 + 100 * k as u64 + c as u64 }
 fn val_r(r: u32) -> u32 { 7 + r }
 fn val_f(r: u32) -> u32 { 30 + 3 * r }
 fn val_s(k: u32, c: u32) -> u32 { 100 * k + c + 1 }
+fn tag_j(r: u32) -> u64 { 6_000_000 + r as u64 }
+fn val_j(r: u32) -> u32 { 61 + 5 * r }
+
+// ---- the many-constants class: constant i of version k has a type (by i % 8) and a value of its own
+fn many_u64(k: u32, i: u32) -> u64 { 0x1111_0000_0000 + 0x0101 * i as u64 + 0x1_0000 * k as u64 }
+fn many_u32(k: u32, i: u32) -> u32 { 3_000_000 + 1000 * k + 7 * i }
+fn many_u8(k: u32, i: u32) -> u8 { ((3 * i + k + 1) % 251) as u8 }
+fn many_i64(k: u32, i: u32) -> i64 { 0x2222_0000_0000 + 0x0303 * i as i64 + k as i64 }
+fn many_bool(k: u32, i: u32) -> bool { (i / 8 + k) % 2 == 0 }
+fn many_str(k: u32, i: u32) -> String { format!("many-constants string {i} of version {k} ............ {}", i * 37 + k) }
+fn many_list(k: u32, i: u32) -> Vec<u32> { vec![i, k, i * i + 1, 77, 1000 + i] }
+fn many_f64(k: u32, i: u32) -> f64 { 0.25 * (4 * i + k) as f64 + 1000.0 }
+fn cv_u64(x: u64) -> u32 { (x % 99_991) as u32 }
+fn cv_i64(x: i64) -> u32 { x.rem_euclid(99_989) as u32 }
+fn cv_f64(x: f64) -> u32 { ((x * 4.0) as u64 % 99_971) as u32 }
+/// what getter i (`gm<i>`) of version k returns
+fn many_get(k: u32, i: u32) -> u32 {
+    match i % 8 {
+        0 => cv_u64(many_u64(k, i)),
+        1 => many_u32(k, i) % 99_991,
+        2 => many_u8(k, i) as u32,
+        3 => cv_i64(many_i64(k, i)),
+        4 => 10 + many_bool(k, i) as u32,
+        5 => ssum_of(&many_str(k, i)),
+        6 => lsum_of(&many_list(k, i)),
+        _ => cv_f64(many_f64(k, i)),
+    }
+}
+/// what the many-constants part of `main` adds up to: every getter, every third constant once more together with
+/// an earlier one (`gn<i>`, a second reader generated later), and constant 0 read by `main` itself
+fn many_value(k: u32, m: u32) -> u32 {
+    let mut v = 0u32;
+    for i in 0..m {
+        v += many_get(k, i);
+        if i % 3 == 0 {
+            v += many_get(k, i) + many_get(k, i / 2);
+        }
+    }
+    if m > 0 {
+        v += many_get(k, 0);
+    }
+    v
+}
+/// source of the many-constants part: constant, its getter, (every third) a later second reader
+fn many_source(k: u32, m: u32) -> String {
+    let mut s = String::new();
+    let cv = |i: u32| ["cvu64", "cvu32", "cvu8", "cvi64", "cvbool", "ssum", "lsum", "cvf64"][(i % 8) as usize];
+    for i in 0..m {
+        let (ty, lit) = match i % 8 {
+            0 => ("u64", many_u64(k, i).to_string()),
+            1 => ("u32", many_u32(k, i).to_string()),
+            2 => ("u8", many_u8(k, i).to_string()),
+            3 => ("i64", many_i64(k, i).to_string()),
+            4 => ("bool", many_bool(k, i).to_string()),
+            5 => ("String", format!("\"{}\"", many_str(k, i))),
+            6 => ("List[u32]", roto_list(&many_list(k, i))),
+            _ => ("f64", format!("{:?}", many_f64(k, i))),
+        };
+        s.push_str(&format!("const MC{i}: {ty} = {lit};\nfn gm{i}() -> u32 {{ {}(MC{i}) }}\n", cv(i)));
+        if i % 3 == 0 {
+            s.push_str(&format!("fn gn{i}() -> u32 {{ {}(MC{i}) + {}(MC{}) }}\n", cv(i), cv(i / 2), i / 2));
+        }
+    }
+    s
+}
 
 // ---------------------------------------------------------------- histories
 
@@ -134,7 +199,14 @@ enum Op {
     RegSibs(u32),
     /// `z` zero-sized script constants (model indices 0..z), then `n` sized ones (indices z..z+n);
     /// `us`: bit j set = the script calls further closure j of its runtime
-    Compile { r: u32, k: u32, n: u32, z: u32, uc: bool, uf: bool, ud: bool, us: u8 },
+    /// `m`: further script constants of small types (u64, u32, u8, i64, bool, String, List[u32], f64 in turn), each
+    /// with a recognisable value of its own and a getter function declared right after it (so that code reading
+    /// constant i is generated before constants i+1 … exist), read again by later functions and by `main`;
+    /// `uk`: the script hands a List[String] it builds to the stashing closure of its runtime on every call
+    Compile { r: u32, k: u32, n: u32, z: u32, uc: bool, uf: bool, ud: bool, us: u8, m: u32, uk: bool },
+    /// registers the stashing closure of runtime r: its captured state (a tracked `Tk` and a journal) keeps the
+    /// script-built `List<String>`s it is handed — values whose drop glue is generated code of the module that built them
+    RegKeep(u32),
     Get(u32),
     /// `Package::get_tests`: the `TestCase` of the script's one test (wraps a handle; appended like `Get`)
     GetTest(u32),
@@ -187,7 +259,7 @@ fn data_value(k: u32) -> u32 {
 }
 
 /// the value `main()` of that compilation is meant to return
-fn value_of(r: u32, k: u32, n: u32, z: u32, uc: bool, uf: bool, ud: bool, us: u8) -> u32 {
+fn value_of(r: u32, k: u32, n: u32, z: u32, uc: bool, uf: bool, ud: bool, us: u8, m: u32, uk: bool) -> u32 {
     let mut v = 1000 * k;
     for c in z..z + n {
         v += val_s(k, c);
@@ -195,9 +267,11 @@ fn value_of(r: u32, k: u32, n: u32, z: u32, uc: bool, uf: bool, ud: bool, us: u8
     if ud {
         v += data_value(k) + val_s(k, z + n);
     }
+    // a registered closure the script uses is called by `main`, by an ordinary function, and by the initialiser
+    // of a script constant generated after that function (which also calls the function): four calls in all
     for j in 0..2 {
         if us & (1 << j) != 0 {
-            v += val_g(r, j);
+            v += 4 * val_g(r, j);
         }
     }
     if us & 4 != 0 {
@@ -207,7 +281,11 @@ fn value_of(r: u32, k: u32, n: u32, z: u32, uc: bool, uf: bool, ud: bool, us: u8
         v += val_r(r) + val_d(r);
     }
     if uf {
-        v += val_f(r);
+        v += 4 * val_f(r);
+    }
+    v += many_value(k, m);
+    if uk {
+        v += val_j(r);
     }
     v
 }
@@ -219,13 +297,14 @@ impl Op {
             Op::RegConst(r) => format!("rc:{r}"),
             Op::RegClos(r) => format!("rf:{r}"),
             Op::RegSibs(r) => format!("rs:{r}"),
-            Op::Compile { r, k, n, z, uc, uf, ud, us } => format!(
+            Op::RegKeep(r) => format!("rk:{r}"),
+            Op::Compile { r, k, n, z, uc, uf, ud, us, m, uk } => format!(
                 "c:{r}:{k}:{}:{z}:{}:{}:{}:{us}:{}",
                 *z + *n + *ud as u32,
                 *uc as u8,
                 *uf as u8,
                 *ud as u8,
-                value_of(*r, *k, *n, *z, *uc, *uf, *ud, *us)
+                value_of(*r, *k, *n, *z, *uc, *uf, *ud, *us, *m, *uk)
             ),
             Op::Get(k) => format!("g:{k}"),
             Op::GetTest(k) => format!("gt:{k}"),
@@ -242,13 +321,33 @@ impl Op {
             Op::DropH(_, t) | Op::DropP(_, t) | Op::DropR(_, t) => *t,
             _ => false,
         };
-        format!("{}{}", self.lean(), if t { "@t" } else { "" })
+        let extra = match self {
+            Op::Compile { m, uk, .. } => format!("{}{}", if *m > 0 { format!("+m{m}") } else { String::new() }, if *uk { "+j" } else { "" }),
+            _ => String::new(),
+        };
+        format!("{}{}{}", self.lean(), extra, if t { "@t" } else { "" })
+    }
+    /// the Lean model knows the operation (the stashing closure is the harness's own: its registration is not
+    /// an operation of the model, a script that calls it is a compilation whose value says so)
+    fn in_model(&self) -> bool {
+        !matches!(self, Op::RegKeep(_))
     }
     fn parse(tok: &str) -> Option<Op> {
         let (body, t) = match tok.strip_suffix("@t") {
             Some(b) => (b, true),
             None => (tok, false),
         };
+        // harness-only parts of a compilation (the Lean model sees them through the value only): `+m<count>`, `+j`
+        let mut plus = body.split('+');
+        let body = plus.next()?;
+        let (mut m, mut uk) = (0u32, false);
+        for x in plus {
+            if x == "j" {
+                uk = true;
+            } else {
+                m = x.strip_prefix('m')?.parse().ok()?;
+            }
+        }
         let p: Vec<&str> = body.split(':').collect();
         let n = |i: usize| -> Option<u32> { p.get(i)?.parse().ok() };
         Some(match (p[0], p.len()) {
@@ -256,8 +355,9 @@ impl Op {
             ("rc", 2) => Op::RegConst(n(1)?),
             ("rf", 2) => Op::RegClos(n(1)?),
             ("rs", 2) => Op::RegSibs(n(1)?),
-            ("c", 6) | ("c", 7) => Op::Compile { r: n(1)?, k: n(2)?, n: n(3)?, z: 0, uc: n(4)? == 1, uf: n(5)? == 1, ud: false, us: 0 },
-            ("c", 8) => Op::Compile { r: n(1)?, k: n(2)?, n: n(3)?.checked_sub(n(6)?)?, z: 0, uc: n(4)? == 1, uf: n(5)? == 1, ud: n(6)? == 1, us: 0 },
+            ("rk", 2) => Op::RegKeep(n(1)?),
+            ("c", 6) | ("c", 7) => Op::Compile { r: n(1)?, k: n(2)?, n: n(3)?, z: 0, uc: n(4)? == 1, uf: n(5)? == 1, ud: false, us: 0, m: 0, uk: false },
+            ("c", 8) => Op::Compile { r: n(1)?, k: n(2)?, n: n(3)?.checked_sub(n(6)?)?, z: 0, uc: n(4)? == 1, uf: n(5)? == 1, ud: n(6)? == 1, us: 0, m: 0, uk: false },
             ("c", 10) => Op::Compile {
                 r: n(1)?,
                 k: n(2)?,
@@ -267,6 +367,8 @@ impl Op {
                 uf: n(6)? == 1,
                 ud: n(7)? == 1,
                 us: (n(8)? & 7) as u8,
+                m,
+                uk,
             },
             ("if", 2) => Op::IntoFunc(n(1)? as usize),
             ("g", 2) => Op::Get(n(1)?),
@@ -285,6 +387,7 @@ impl Op {
             Op::RegConst(_) => "reg-const",
             Op::RegClos(_) => "reg-closure",
             Op::RegSibs(_) => "reg-siblings",
+            Op::RegKeep(_) => "reg-stash",
             Op::Compile { .. } => "compile",
             Op::Get(_) => "get",
             Op::GetTest(_) => "get-test",
@@ -319,6 +422,7 @@ struct Info {
     uc: bool,
     uf: bool,
     ud: bool,
+    uk: bool,
     value: u32,
 }
 
@@ -334,6 +438,8 @@ struct Spec {
     clos_ever: BTreeSet<u32>,
     has_sibs: BTreeSet<u32>,
     sibs_ever: BTreeSet<u32>,
+    has_keep: BTreeSet<u32>,
+    keep_ever: BTreeSet<u32>,
     compiled: BTreeMap<u32, Info>,
     pkgs: Vec<u32>,
     hs: Vec<u32>,
@@ -348,8 +454,10 @@ impl Spec {
             Op::RegConst(r) => self.rts.contains(r) && !self.const_ever.contains(r),
             Op::RegClos(r) => self.rts.contains(r) && !self.clos_ever.contains(r),
             Op::RegSibs(r) => self.rts.contains(r) && !self.sibs_ever.contains(r),
-            Op::Compile { r, k, uc, uf, us, .. } => {
+            Op::RegKeep(r) => self.rts.contains(r) && !self.keep_ever.contains(r),
+            Op::Compile { r, k, uc, uf, us, uk, .. } => {
                 self.rts.contains(r)
+                    && (!uk || self.has_keep.contains(r))
                     && !self.compiled.contains_key(k)
                     && (!uc || self.has_const.contains(r))
                     && (!uf || self.has_clos.contains(r))
@@ -379,10 +487,14 @@ impl Spec {
                 self.has_sibs.insert(*r);
                 self.sibs_ever.insert(*r);
             }
-            Op::Compile { r, k, n, z, uc, uf, ud, us } => {
+            Op::RegKeep(r) => {
+                self.has_keep.insert(*r);
+                self.keep_ever.insert(*r);
+            }
+            Op::Compile { r, k, n, z, uc, uf, ud, us, m, uk } => {
                 self.compiled.insert(
                     *k,
-                    Info { r: *r, n: *n, z: *z, us: *us, uc: *uc, uf: *uf, ud: *ud, value: value_of(*r, *k, *n, *z, *uc, *uf, *ud, *us) },
+                    Info { r: *r, n: *n, z: *z, us: *us, uc: *uc, uf: *uf, ud: *ud, uk: *uk, value: value_of(*r, *k, *n, *z, *uc, *uf, *ud, *us, *m, *uk) },
                 );
                 self.pkgs.push(*k);
             }
@@ -413,8 +525,27 @@ impl Spec {
                 self.has_const.remove(r);
                 self.has_clos.remove(r);
                 self.has_sibs.remove(r);
+                self.has_keep.remove(r);
             }
         }
+    }
+    /// Would `op` leave the state of a stashing closure alive (held by its runtime, or by another module) after
+    /// the last package / handle of a version whose script handed it lists is gone?  Those lists carry drop glue
+    /// that is code of that version; what becomes of values that outlive every handle and package of their
+    /// module is not C11's subject (no handle or package refers to them), so generated histories keep clear of it:
+    /// a version that stashes is released after the runtime, and a runtime has one such version at a time.
+    fn stash_hazard(&self, op: &Op) -> bool {
+        let mut s2 = self.clone();
+        if !s2.valid(op) {
+            return false;
+        }
+        if let Op::Compile { r, uk: true, .. } = op {
+            if self.compiled.values().any(|i| i.r == *r && i.uk) {
+                return true;
+            }
+        }
+        s2.apply(op);
+        s2.compiled.iter().any(|(k, i)| i.uk && !s2.referred(*k) && self.referred(*k) && s2.has_keep.contains(&i.r))
     }
     /// a package or a handle of version k is still around
     fn referred(&self, k: u32) -> bool {
@@ -474,6 +605,12 @@ impl Spec {
         if !self.sibs_ever.is_empty() {
             out.push((Ctr::Zf, "GZ".into(), gz_min, gz_max, true));
         }
+        for r in &self.keep_ever {
+            // the state of the stashing closure (not an object of the Lean model)
+            let needed = self.has_keep.contains(r) || self.compiled.iter().any(|(k, i)| i.r == *r && i.uk && self.referred(*k));
+            let may = needed || self.compiled.iter().any(|(k, i)| i.r == *r && self.referred(*k));
+            out.push((Ctr::Tag(tag_j(*r)), format!("J{r}"), needed as i64, may as i64, false));
+        }
         // the order the Lean driver prints them in: R, F, S, Z, G<r>.<j>, GZ
         let rank = |n: &str| match (&n[..1], n) {
             (_, "RZ") => 1,
@@ -483,6 +620,7 @@ impl Spec {
             ("S", _) => 3,
             (_, "Z") => 4,
             (_, "GZ") => 6,
+            ("J", _) => 7,
             _ => 5,
         };
         out.sort_by_key(|e| rank(&e.1));
@@ -557,6 +695,12 @@ impl H {
     }
 }
 
+/// what the stashing closure captures: a tracked value and the script-built lists it was handed
+struct Journal {
+    tk: Tk,
+    lists: Mutex<Vec<List<RotoString>>>,
+}
+
 #[derive(Default)]
 struct World {
     rts: BTreeMap<u32, Rt>,
@@ -585,9 +729,9 @@ fn roto_list(l: &[u32]) -> String {
     format!("[{}]", l.iter().map(|x| x.to_string()).collect::<Vec<_>>().join(", "))
 }
 
-fn script(r: u32, k: u32, n: u32, z: u32, uc: bool, uf: bool, ud: bool, us: u8) -> String {
-    let value = value_of(r, k, n, z, uc, uf, ud, us);
-    let mut s = String::new();
+fn script(r: u32, k: u32, n: u32, z: u32, uc: bool, uf: bool, ud: bool, us: u8, m: u32, uk: bool) -> String {
+    let value = value_of(r, k, n, z, uc, uf, ud, us, m, uk);
+    let mut s = many_source(k, m);
     for c in 0..z {
         // a script constant of a zero-sized type that has a Drop
         s.push_str(&format!("const ZC{c}: Zs = mkz();\n"));
@@ -600,6 +744,16 @@ fn script(r: u32, k: u32, n: u32, z: u32, uc: bool, uf: bool, ud: bool, us: u8) 
         s.push_str(&format!("const SLT: List[Tk] = [mk({}, {})];\n", tag_s(k, z + n), val_s(k, z + n)));
         s.push_str(&format!("const SL: List[u32] = {};\n", roto_list(&list_const(k))));
         s.push_str(&format!("const SS: String = \"{}\" + \"{}\";\n", lit_const_a(k), lit_const_b()));
+    }
+    // registered closures are also called from an ordinary function and, generated after it, from the initialiser
+    // of a script constant (code that runs once, during compilation)
+    if uf {
+        s.push_str("fn viaf() -> u32 { getclos() }\nconst CF: u32 = viaf() + getclos();\n");
+    }
+    for j in 0..2 {
+        if us & (1 << j) != 0 {
+            s.push_str(&format!("fn vias{j}() -> u32 {{ sib{j}() }}\nconst CS{j}: u32 = vias{j}() + sib{j}();\n"));
+        }
     }
     s.push_str(&format!("fn main() -> u32 {{\n    {}", 1000 * k));
     for c in 0..z {
@@ -620,12 +774,30 @@ fn script(r: u32, k: u32, n: u32, z: u32, uc: bool, uf: bool, ud: bool, us: u8) 
         s.push_str(" + val(REGC) + val(REGD) + zrval(REGZ)");
     }
     if uf {
-        s.push_str(" + getclos()");
+        // (`main` reaches this closure only through `viaf`: the constant initialiser is the LAST call site of
+        // it that is generated; the further closures below are also called by `main` directly)
+        s.push_str(" + viaf() + viaf() + CF");
     }
     for (j, name) in ["sib0", "sib1", "sibz"].iter().enumerate() {
         if us & (1 << j) != 0 {
             s.push_str(&format!(" + {name}()"));
+            if j < 2 {
+                s.push_str(&format!(" + vias{j}() + CS{j}"));
+            }
         }
+    }
+    for i in 0..m {
+        s.push_str(&format!("{}+ gm{i}()", if i % 6 == 0 { "\n    " } else { " " }));
+        if i % 3 == 0 {
+            s.push_str(&format!(" + gn{i}()"));
+        }
+    }
+    if m > 0 {
+        s.push_str(" + cvu64(MC0)");
+    }
+    if uk {
+        // a list the script builds (its elements need drop glue) is handed to the stashing closure
+        s.push_str(&format!("\n    + stash([\"stashed by version {k}\", \"a longer string that is built at run time: \" + \"{}\"])", lit_short(k)));
     }
     s.push_str("\n}\n");
     s.push_str(&format!("test selfcheck {{\n    if main() != {} {{\n        reject;\n    }}\n    accept\n}}\n", value));
@@ -648,6 +820,12 @@ impl World {
                     fn ssum(s: RotoString) -> u32 { ssum_of(&s) }
                     fn lsum(l: List<u32>) -> u32 { lsum_of(&l.to_vec()) }
                     fn ipsum(a: IpAddr) -> u32 { ipsum_of(&a) }
+                    fn cvu64(x: u64) -> u32 { cv_u64(x) }
+                    fn cvu32(x: u32) -> u32 { x % 99_991 }
+                    fn cvu8(x: u8) -> u32 { x as u32 }
+                    fn cvi64(x: i64) -> u32 { cv_i64(x) }
+                    fn cvbool(x: bool) -> u32 { 10 + x as u32 }
+                    fn cvf64(x: f64) -> u32 { cv_f64(x) }
                 })
                 .map_err(|e| format!("{e}"))?;
                 let rt = if is_cx(*r) { Rt::Cx(rt.with_context_type::<Cx>()?) } else { Rt::No(rt) };
@@ -689,6 +867,24 @@ impl World {
                     }
                 }
             }
+            Op::RegKeep(r) => {
+                let journal = Journal { tk: Tk::new(tag_j(*r), val_j(*r)), lists: Mutex::new(Vec::new()) };
+                let lib = library! {
+                    let stash = move |entries: List<RotoString>| -> u32 {
+                        // (uses `journal` as a whole: the closure owns all of it)
+                        let j = &journal;
+                        let mut l = j.lists.lock().unwrap();
+                        if l.len() < 6 {
+                            l.push(entries);
+                        }
+                        j.tk.val
+                    };
+                };
+                match self.rts.get_mut(r).unwrap() {
+                    Rt::No(rt) => rt.add(lib).map_err(|e| format!("{e}"))?,
+                    Rt::Cx(rt) => rt.add(lib).map_err(|e| format!("{e}"))?,
+                }
+            }
             Op::RegClos(r) => {
                 let cap = Tk::new(tag_f(*r), val_f(*r));
                 let lib = library! {
@@ -699,8 +895,8 @@ impl World {
                     Rt::Cx(rt) => rt.add(lib).map_err(|e| format!("{e}"))?,
                 }
             }
-            Op::Compile { r, k, n, z, uc, uf, ud, us } => {
-                let src = script(*r, *k, *n, *z, *uc, *uf, *ud, *us);
+            Op::Compile { r, k, n, z, uc, uf, ud, us, m, uk } => {
+                let src = script(*r, *k, *n, *z, *uc, *uf, *ud, *us, *m, *uk);
                 let tree = FileTree::test_file(&format!("v{k}.roto"), &src, 0);
                 let pkg = match &self.rts[r] {
                     Rt::No(rt) => Pkg::No(tree.compile(rt).map_err(|e| format!("compile v{k}: {e}"))?),
@@ -808,19 +1004,48 @@ struct Outcome {
     classes: Vec<String>,
 }
 
+/// seconds since the process started at which the history being run is declared hung (0 = no limit)
+static HUNG_AT: AtomicU64 = AtomicU64::new(0);
+static STARTED: std::sync::OnceLock<std::time::Instant> = std::sync::OnceLock::new();
+
+/// Worker processes give every history 30 s (a history takes well under a second): code that reads through a
+/// dangling pointer may spin or block for ever instead of crashing; the parent then sees exit code 97 after the
+/// `START` line of that history, like a crash, instead of waiting for the batch's timeout.
+fn start_watchdog() {
+    STARTED.get_or_init(std::time::Instant::now);
+    std::thread::spawn(|| loop {
+        std::thread::sleep(std::time::Duration::from_millis(200));
+        let limit = HUNG_AT.load(Ordering::SeqCst);
+        if limit != 0 && STARTED.get().unwrap().elapsed().as_secs() >= limit {
+            std::process::exit(97);
+        }
+    });
+}
+
 fn run_history(h: &[Op], drv: Option<&mut Driver>, progress: bool) -> Outcome {
+    if let Some(t0) = STARTED.get() {
+        HUNG_AT.store(t0.elapsed().as_secs() + 30, Ordering::SeqCst);
+    }
     let mut out = Outcome { violations: vec![], mismatches: vec![], signature: String::new(), classes: vec![] };
     LIVE.lock().unwrap().clear();
     BAD_DROPS.store(0, Ordering::SeqCst);
     for c in [&ZS_LIVE, &ZR_LIVE, &ZF_LIVE] {
         c.store(0, Ordering::SeqCst);
     }
-    let lean: Option<Vec<String>> = drv.map(|d| {
-        let line = format!("c11 run {}", h.iter().map(|o| o.lean()).collect::<Vec<_>>().join(" "));
+    // position of each operation among those the Lean model knows
+    let mut lean_idx: Vec<Option<usize>> = vec![];
+    for op in h {
+        let n = lean_idx.iter().flatten().count();
+        lean_idx.push(if op.in_model() { Some(n) } else { None });
+    }
+    let n_model = lean_idx.iter().flatten().count();
+    let mut drv = drv;
+    let lean: Option<Vec<String>> = drv.as_deref_mut().map(|d| {
+        let line = format!("c11 run {}", h.iter().filter(|o| o.in_model()).map(|o| o.lean()).collect::<Vec<_>>().join(" "));
         d.ask(&line).split('|').map(|s| s.to_string()).collect()
     });
     if let Some(l) = &lean {
-        if l.len() != h.len() {
+        if l.len() != n_model {
             out.mismatches.push((format!("driver answered {} records for {} ops: {:?}", l.len(), h.len(), l.first()), 0));
             return out;
         }
@@ -909,15 +1134,25 @@ fn run_history(h: &[Op], drv: Option<&mut Driver>, progress: bool) -> Outcome {
             sig.push(op.kind().to_string());
         }
         // ---- compare with the model
-        if let Some(l) = &lean {
-            let rec: Vec<&str> = l[step].split(';').collect();
+        if let (Op::Compile { m, .. }, Some(d), true) = (op, drv.as_deref_mut(), valid) {
+            if *m > 0 {
+                // the model of the constant table (generated `constStore`): is every baked constant address of a
+                // script with m constants still valid?  The implementation's answer is the calls above and below.
+                let a = d.ask(&format!("c11 addr {m}"));
+                if a.is_empty() || a.chars().any(|c| c != '1' && c != ',') {
+                    out.mismatches.push((format!("step {step} `{}`: the model predicts stale constant addresses in the code of a script with {m} constants: {a}", op.text()), step));
+                }
+            }
+        }
+        if let (Some(l), Some(li)) = (&lean, lean_idx[step]) {
+            let rec: Vec<&str> = l[li].split(';').collect();
             let mine = format!("{};{};{}", valid as u8, calls.join(","), live.join(","));
             let theirs = rec.iter().take(3).cloned().collect::<Vec<_>>().join(";");
             if mine != theirs {
                 out.mismatches.push((format!("step {step} `{}`: implementation `{mine}` model `{theirs}`", op.text()), step));
             }
             if rec.get(3).copied() != Some("0") {
-                out.mismatches.push((format!("step {step} `{}`: the model reports a use-after-free ({})", op.text(), l[step]), step));
+                out.mismatches.push((format!("step {step} `{}`: the model reports a use-after-free ({})", op.text(), l[li]), step));
             }
         }
         if !out.violations.is_empty() {
@@ -959,6 +1194,7 @@ fn all_ops(spec: &Spec, max_rt: u32, max_k: u32, exhaustive: bool) -> Vec<Op> {
         v.push(Op::RegClos(r));
         if !exhaustive {
             v.push(Op::RegSibs(r));
+            v.push(Op::RegKeep(r));
         }
         v.push(Op::DropR(r, false));
     }
@@ -970,7 +1206,7 @@ fn all_ops(spec: &Spec, max_rt: u32, max_k: u32, exhaustive: bool) -> Vec<Op> {
                 // (a sized and a zero-sized script constant, and every further closure of the runtime)
                 let (uc, uf) = (spec.has_const.contains(&r), spec.has_clos.contains(&r));
                 let us = if spec.has_sibs.contains(&r) { 7 } else { 0 };
-                v.push(Op::Compile { r, k: next_k, n: 1, z: 1, uc, uf, ud: true, us });
+                v.push(Op::Compile { r, k: next_k, n: 1, z: 1, uc, uf, ud: true, us, m: 0, uk: false });
             } else {
                 for n in 0..3 {
                     for uc in [false, true] {
@@ -979,7 +1215,7 @@ fn all_ops(spec: &Spec, max_rt: u32, max_k: u32, exhaustive: bool) -> Vec<Op> {
                                 // zero-sized script constants; which of the further closures are called (only the
                                 // first, only the second, both of one type, the zero-sized one, all)
                                 for (z, us) in [(0, 0), (1, 0), (2, 3), (0, 1), (0, 2), (1, 4), (0, 3), (1, 7), (0, 6)] {
-                                    v.push(Op::Compile { r, k: next_k, n, z, uc, uf, ud, us });
+                                    v.push(Op::Compile { r, k: next_k, n, z, uc, uf, ud, us, m: 0, uk: false });
                                 }
                             }
                         }
@@ -1040,7 +1276,11 @@ fn gen_random(p: &mut Prng) -> Vec<Op> {
     if p.chance(2, 3) {
         push(&mut h, &mut spec, Op::RegSibs(0));
     }
-    while h.len() < len {
+    if p.chance(1, 2) {
+        push(&mut h, &mut spec, Op::RegKeep(0));
+    }
+    let mut skipped = 0;
+    while h.len() < len && skipped < 50 {
         let ops = all_ops(&spec, max_rt, 6, false);
         if ops.is_empty() {
             break;
@@ -1060,8 +1300,18 @@ fn gen_random(p: &mut Prng) -> Vec<Op> {
             Op::DropH(i, _) => Op::DropH(i, t),
             Op::DropP(k, _) => Op::DropP(k, t),
             Op::DropR(r, _) => Op::DropR(r, t),
+            // the many-constants class (table growth at the 4th, 8th, 15th, 29th constant) and the stashing closure
+            Op::Compile { r, k, n, z, uc, uf, ud, us, .. } => {
+                let m = if p.chance(1, 4) { *p.pick(&[4u32, 5, 8, 9, 15, 16, 29, 30, 40]) } else { 0 };
+                let uk = spec.has_keep.contains(&r) && p.chance(1, 3);
+                Op::Compile { r, k, n, z, uc, uf, ud, us, m, uk }
+            }
             o => o,
         };
+        if spec.stash_hazard(&op) {
+            skipped += 1;
+            continue;
+        }
         push(&mut h, &mut spec, op);
     }
     // often finish with a complete teardown in a random order
@@ -1077,6 +1327,7 @@ fn gen_random(p: &mut Prng) -> Vec<Op> {
             for i in 0..spec.hs.len() {
                 drops.push(Op::DropH(i, p.chance(1, 3)));
             }
+            drops.retain(|o| !spec.stash_hazard(o));
             if drops.is_empty() {
                 break;
             }
@@ -1101,7 +1352,7 @@ fn gen_exhaustive(depth: usize) -> Vec<Vec<Op>> {
             return;
         }
         for op in all_ops(spec, 1, 2, true) {
-            if matches!(op, Op::Build(_) | Op::RegConst(_) | Op::RegClos(_) | Op::RegSibs(_)) {
+            if matches!(op, Op::Build(_) | Op::RegConst(_) | Op::RegClos(_) | Op::RegSibs(_) | Op::RegKeep(_)) {
                 continue;
             }
             // adjacent creation operations commute (they only add an owner): one canonical order per
@@ -1142,13 +1393,13 @@ fn gen_exhaustive(depth: usize) -> Vec<Vec<Op>> {
 /// dropping the others; plus hot reload (recompile on the same runtime after
 /// registering more) and two runtimes.
 fn gen_boundary() -> Vec<Vec<Op>> {
-    let full = |k: u32| Op::Compile { r: 0, k, n: 2, z: 1, uc: true, uf: true, ud: true, us: 7 };
+    let full = |k: u32| Op::Compile { r: 0, k, n: 2, z: 1, uc: true, uf: true, ud: true, us: 7, m: 0, uk: false };
     let pre = vec![Op::Build(0), Op::RegConst(0), Op::RegClos(0), Op::RegSibs(0)];
     let mut out: Vec<Vec<Op>> = vec![];
     // r = 0: a plain runtime; r = 1: a runtime with a context type (the `Ctx<C>` instantiations of
     // get_function / call / into_func)
     for r in [0u32, 1] {
-        let full = |k: u32| Op::Compile { r, k, n: 2, z: 1, uc: true, uf: true, ud: true, us: 7 };
+        let full = |k: u32| Op::Compile { r, k, n: 2, z: 1, uc: true, uf: true, ud: true, us: 7, m: 0, uk: false };
         // the survivor: 0 = plain handle, 1 = clone (original dropped), 2 = closure, 3 = closure of a clone,
         // 4 = test case
         for survivor in 0..5 {
@@ -1217,7 +1468,7 @@ fn gen_boundary() -> Vec<Vec<Op>> {
     ] {
         for obj in 0..3 {
             let mut h = pre.clone();
-            h.push(Op::Compile { r: 0, k: 1, n, z, uc, uf, ud, us });
+            h.push(Op::Compile { r: 0, k: 1, n, z, uc, uf, ud, us, m: 0, uk: false });
             h.push(if obj == 2 { Op::GetTest(1) } else { Op::Get(1) });
             if obj == 1 {
                 h.push(Op::IntoFunc(0));
@@ -1229,7 +1480,7 @@ fn gen_boundary() -> Vec<Vec<Op>> {
     // registering after a compilation, then compiling again on the same runtime (hot reload with a grown runtime)
     out.push(vec![
         Op::Build(0),
-        Op::Compile { r: 0, k: 1, n: 1, z: 0, uc: false, uf: false, ud: true, us: 0 },
+        Op::Compile { r: 0, k: 1, n: 1, z: 0, uc: false, uf: false, ud: true, us: 0, m: 0, uk: false },
         Op::Get(1),
         Op::RegConst(0),
         Op::RegClos(0),
@@ -1250,8 +1501,8 @@ fn gen_boundary() -> Vec<Vec<Op>> {
         out.push(vec![
             Op::Build(0),
             Op::RegSibs(0),
-            Op::Compile { r: 0, k: 1, n: 0, z: 1, uc: false, uf: false, ud: false, us: first | 4 },
-            Op::Compile { r: 0, k: 2, n: 1, z: 0, uc: false, uf: false, ud: false, us: 3 },
+            Op::Compile { r: 0, k: 1, n: 0, z: 1, uc: false, uf: false, ud: false, us: first | 4, m: 0, uk: false },
+            Op::Compile { r: 0, k: 2, n: 1, z: 0, uc: false, uf: false, ud: false, us: 3, m: 0, uk: false },
             Op::Get(1),
             Op::Get(2),
             Op::DropR(0, false),
@@ -1274,7 +1525,7 @@ fn gen_boundary() -> Vec<Vec<Op>> {
         Op::RegSibs(0),
         Op::RegSibs(1),
         full(1),
-        Op::Compile { r: 1, k: 2, n: 1, z: 1, uc: true, uf: true, ud: true, us: 7 },
+        Op::Compile { r: 1, k: 2, n: 1, z: 1, uc: true, uf: true, ud: true, us: 7, m: 0, uk: false },
         Op::Get(1),
         Op::Get(2),
         Op::IntoFunc(1),
@@ -1285,6 +1536,64 @@ fn gen_boundary() -> Vec<Vec<Op>> {
         Op::DropH(0, false),
         Op::DropH(0, true),
     ]);
+    // ---- scripts with MANY script constants of small types (the constant table of the module grows while code
+    // that has the address of an earlier constant baked in already exists): 4 … 40 constants, each with a getter
+    // generated right after it; a reload of another script in between; every value is read after every step
+    for (m, r, survivor) in [
+        (5u32, 0u32, 0),
+        (9, 0, 0),
+        (16, 0, 1),
+        (30, 0, 0),
+        (40, 0, 0),
+        (40, 0, 1),
+        (16, 1, 0),
+        (4, 0, 0),
+        (8, 0, 1),
+        (15, 0, 0),
+        (29, 1, 1),
+    ] {
+        let mut h = vec![Op::Build(r), Op::Compile { r, k: 1, n: 1, z: (m % 2), uc: false, uf: false, ud: false, us: 0, m, uk: false }, Op::Get(1)];
+        if survivor == 1 {
+            h.push(Op::IntoFunc(0));
+        }
+        h.extend([
+            Op::Compile { r, k: 2, n: 0, z: 0, uc: false, uf: false, ud: true, us: 0, m: 3, uk: false },
+            Op::Get(2),
+            Op::DropP(1, false),
+            Op::DropR(r, false),
+            Op::DropP(2, false),
+            Op::Call(0),
+            Op::DropH(1, false),
+            Op::Call(0),
+            Op::DropH(0, false),
+        ]);
+        out.push(h);
+    }
+    // ---- a registered closure whose captured state keeps script-built lists (List[String]: drop glue is code of
+    // the module): the runtime goes first, so the module is the last owner of the closure's state, which must then
+    // be released while the module's code is still there; last owner of the module = handle / clone / closure /
+    // test case / the package
+    for (r, survivor, pkg_last) in [(0u32, 0, false), (0, 1, false), (0, 2, false), (0, 3, false), (0, 0, true), (1, 0, false), (1, 2, true)] {
+        let mut h = vec![
+            Op::Build(r),
+            Op::RegKeep(r),
+            Op::RegClos(r),
+            Op::Compile { r, k: 1, n: 1, z: 1, uc: false, uf: true, ud: true, us: 0, m: 0, uk: true },
+            if survivor == 3 { Op::GetTest(1) } else { Op::Get(1) },
+        ];
+        match survivor {
+            1 => h.extend([Op::CloneH(0), Op::DropH(0, false)]),
+            2 => h.push(Op::IntoFunc(0)),
+            _ => {}
+        }
+        h.extend([Op::Call(0), Op::DropR(r, false)]);
+        if pkg_last {
+            h.extend([Op::Call(0), Op::DropH(0, false), Op::DropP(1, false)]);
+        } else {
+            h.extend([Op::DropP(1, false), Op::Call(0), Op::DropH(0, false)]);
+        }
+        out.push(h);
+    }
     out
 }
 
@@ -1317,6 +1626,11 @@ fn main() {
         Some("run") => {
             let seed: u64 = args.get(2).and_then(|s| s.parse().ok()).unwrap_or(1);
             let thorough = args.get(3).map(|s| s == "thorough").unwrap_or(false);
+            // `search`: the hunt for a failing input after an obligation broke in the quick tier — class
+            // representatives, then random and short exhaustive histories until ~2.5 minutes have passed
+            let search = args.get(3).map(|s| s == "search").unwrap_or(false);
+            let started = std::time::Instant::now();
+            let in_time = |limit: u64| !search || started.elapsed().as_secs() < limit;
             let seed_s = seed.to_string();
             let t = std::time::Duration::from_secs(600);
             let depth = if thorough { 8 } else { 7 };
@@ -1325,44 +1639,86 @@ fn main() {
             // crash budget: a tree on which (almost) every history dies must not
             // cost one process start per history
             let crashes = std::cell::Cell::new(0u32);
+            // the table model of Model/LifetimeAddr.lean against the real `std::collections::HashMap`: at which
+            // insertions do the entries move (the capacity changes and the address of the first entry with it)?
+            {
+                let mut real: Vec<String> = vec![];
+                let mut map: std::collections::HashMap<u64, [u8; 40]> = std::collections::HashMap::new();
+                let (mut cap, mut addr) = (map.capacity(), 0usize);
+                for i in 1..=240u64 {
+                    map.insert(i, [i as u8; 40]);
+                    let a = map.get(&1).map(|v| v.as_ptr() as usize).unwrap_or(0);
+                    if map.capacity() != cap || a != addr {
+                        real.push(i.to_string());
+                    }
+                    cap = map.capacity();
+                    addr = a;
+                }
+                let real = real.join(",");
+                let model = Driver::spawn().map(|mut d| d.ask("c11 growth 240")).unwrap_or_default();
+                rep.evaluations += 1;
+                rep.hist("table-growth", if real == model { "model = std HashMap" } else { "model ≠ std HashMap" });
+                if real != model {
+                    rep.mismatch(
+                        &format!("the constant-table model reallocates at insertions [{model}], std's HashMap at [{real}]"),
+                        json!({"history": "", "table-growth": {"model": model, "real": real}}),
+                    );
+                }
+            }
             // class representatives first
             let n_bnd = gen_boundary().len() as u64;
             run_batches(&["bnd"], n_bnd, n_bnd, t, &mut rep, |rep: &mut Report, idx: u64, how: &Ended| {
                 crashes.set(crashes.get() + 1);
                 let h = &gen_boundary()[idx as usize];
                 rep.violation(
-                    "the process died (use-after-free / double free) while running this history (and then dropping what it left alive)",
+                    "the process died or hung (use-after-free / double free) while running this history (and then dropping what it left alive)",
                     &format!("crash {}", crash_key(h)),
                     json!({"history": hist_text(h), "ended": format!("{how:?}"), "origin": {"boundary": idx}}),
                 );
             });
             let mut off = 0u64;
-            while off < n_exh && crashes.get() < 6 {
+            while off < n_exh && crashes.get() < 6 && !search {
                 let chunk = 400.min(n_exh - off);
                 let off_s = off.to_string();
                 run_batches(&["exh", &depth_s, &off_s], chunk, 400, t, &mut rep, |rep: &mut Report, idx: u64, how: &Ended| {
                     crashes.set(crashes.get() + 1);
                     let h = &gen_exhaustive(depth)[(off + idx) as usize];
                     rep.violation(
-                        "the process died (use-after-free / double free) while running this history (and then dropping what it left alive)",
+                        "the process died or hung (use-after-free / double free) while running this history (and then dropping what it left alive)",
                         &format!("crash {}", crash_key(h)),
                         json!({"history": hist_text(h), "ended": format!("{how:?}"), "origin": {"exhaustive-depth": depth, "index": off + idx}}),
                     );
                 });
                 off += chunk;
             }
-            let n_rand = if thorough { 20000 } else { 2000 };
+            let n_rand = if thorough { 20000 } else if search { 6000 } else { 2000 };
             let mut off = 0u64;
-            while off < n_rand && crashes.get() < 12 {
+            while off < n_rand && crashes.get() < 12 && in_time(110) {
                 let chunk = 200.min(n_rand - off);
                 let off_s = off.to_string();
                 run_batches(&["random", &seed_s, &off_s], chunk, 200, t, &mut rep, |rep: &mut Report, idx: u64, how: &Ended| {
                     crashes.set(crashes.get() + 1);
                     let h = gen_random(&mut Prng::for_case(seed, off + idx));
                     rep.violation(
-                        "the process died (use-after-free / double free) while running this history (and then dropping what it left alive)",
+                        "the process died or hung (use-after-free / double free) while running this history (and then dropping what it left alive)",
                         &format!("crash {}", crash_key(&h)),
                         json!({"history": hist_text(&h), "ended": format!("{how:?}"), "origin": {"seed": seed, "index": off + idx}}),
+                    );
+                });
+                off += chunk;
+            }
+            // (search mode: the short exhaustive histories come last, while there is time)
+            let mut off = 0u64;
+            while search && off < n_exh && crashes.get() < 12 && in_time(150) {
+                let chunk = 400.min(n_exh - off);
+                let off_s = off.to_string();
+                run_batches(&["exh", &depth_s, &off_s], chunk, 400, t, &mut rep, |rep: &mut Report, idx: u64, how: &Ended| {
+                    crashes.set(crashes.get() + 1);
+                    let h = &gen_exhaustive(depth)[(off + idx) as usize];
+                    rep.violation(
+                        "the process died or hung (use-after-free / double free) while running this history (and then dropping what it left alive)",
+                        &format!("crash {}", crash_key(h)),
+                        json!({"history": hist_text(h), "ended": format!("{how:?}"), "origin": {"exhaustive-depth": depth, "index": off + idx}}),
                     );
                 });
                 off += chunk;
@@ -1370,13 +1726,14 @@ fn main() {
             if crashes.get() >= 6 {
                 rep.notes.push(format!("run cut short after {} crashed histories", crashes.get()));
             }
-            rep.notes.push(format!("boundary: {n_bnd} class representatives (last owner = handle / clone / into_func closure / test case × drop orders × thread × plain / context runtime; each resource kind alone, among them zero-sized script constants, two registered closures of one Rust type, a zero-sized closure) run first; exhaustive: all {n_exh} histories (runtime with constant+closure) ++ suffix of ≤ {depth} ops ending in a drop; random: {n_rand} histories"));
+            rep.notes.push(format!("boundary: {n_bnd} class representatives (last owner = handle / clone / into_func closure / test case × drop orders × thread × plain / context runtime; each resource kind alone, among them zero-sized script constants, two registered closures of one Rust type, a zero-sized closure; scripts with 4 … 40 script constants of small types, each read by code generated before the later constants exist; a registered closure whose state keeps script-built List[String]s, runtime dropped first) run first; exhaustive: all {n_exh} histories (runtime with constant+closure) ++ suffix of ≤ {depth} ops ending in a drop; random: {n_rand} histories"));
             if thorough {
                 valgrind_subset(&mut rep, seed);
             }
         }
         Some("worker") => match args[2].as_str() {
             "bnd" => {
+                start_watchdog();
                 let from: usize = args[3].parse().unwrap();
                 let n: usize = args[4].parse().unwrap();
                 let all = gen_boundary();
@@ -1388,6 +1745,7 @@ fn main() {
                 }
             }
             "exh" => {
+                start_watchdog();
                 let depth: usize = args[3].parse().unwrap();
                 let off: usize = args[4].parse().unwrap();
                 let from: usize = args[5].parse().unwrap();
@@ -1405,6 +1763,7 @@ fn main() {
                 }
             }
             "random" => {
+                start_watchdog();
                 let seed: u64 = args[3].parse().unwrap();
                 let off: u64 = args[4].parse().unwrap();
                 let from: u64 = args[5].parse().unwrap();
@@ -1420,6 +1779,7 @@ fn main() {
             }
             // one history, with the model
             "one" => {
+                start_watchdog();
                 let h = parse_hist(&args[3]).expect("history");
                 let mut drv = Driver::spawn().expect("lean driver");
                 println!("START 0");
@@ -1461,7 +1821,7 @@ fn main() {
                 how => {
                     rep.evaluations += 1;
                     rep.violation(
-                        "the process died (use-after-free / double free) while running this history",
+                        "the process died or hung (use-after-free / double free) while running this history",
                         &format!("crash {}", crash_key(&h)),
                         json!({"history": hs, "ended": format!("{how:?}")}),
                     );
